@@ -580,6 +580,39 @@ def run(chk):
         if n_here < 2:
             raise core.AnalysisBroken("%s: only %d member functions change the length of %s / %s" % (pcls, n_here, pguard, "/".join(pdata)))
 
+    # ---- C20.columns: records kept as several member vectors grow together
+    r_co = chk.rule("C20.columns", "classes that keep a table as several member vectors, one per column, indexed by the same row number (confirmed by reading; frozen below): in every statement list of every member function a column changes its length exactly as the other columns of its table do - a column that falls behind is read past its end by the accessors, which test the row number against one column only.  Exceptions (a sentinel entry at one end of one column) are listed with their reason", floor=7)
+    COLUMNS = [
+        ("opm/io/eclipse/EclFile.cpp", "Opm::EclIO::EclFile", ["array_name", "array_type", "array_size", "array_element_size", "arrayLoaded", "ifStreamPos"],
+         {("load", "ifStreamPos"): "one extra entry after the last array: the end-of-file position"}),
+        ("opm/io/eclipse/OutputStream.cpp", "Opm::EclIO::OutputStream::SummarySpecification::Parameters", ["keywords", "wgnames", "nums", "units"], {}),
+        ("opm/io/eclipse/ESmry.cpp", "Opm::EclIO::ESmry", ["vectorData", "vectorLoaded"], {}),
+        ("opm/io/eclipse/EInit.cpp", "Opm::EclIO::EInit", ["lgr_names", "lgr_array_index", "lgr_nijk", "lgr_nactive"], {}),
+        ("opm/io/eclipse/ExtESmry.cpp", "Opm::EclIO::ExtESmry", ["m_esmry_files", "m_keyword_index", "m_nTstep_v", "m_rstep_offset", "m_rstep_v", "m_tstep_range", "m_tstep_v"], {}),
+        ("opm/input/eclipse/EclipseState/Tables/Rock2dTable.cpp", "Opm::Rock2dTable", ["m_pressureValues", "m_pvmultValues"], {}),
+        ("opm/input/eclipse/EclipseState/Tables/Rock2dtrTable.cpp", "Opm::Rock2dtrTable", ["m_pressureValues", "m_transMultValues"], {}),
+    ]
+    for cfile, ccls, cmem, cexc in COLUMNS:
+        n_here = 0
+        for f in fx.fns:
+            if not f.get("body") or not f["file"].endswith(cfile) or (f.get("cls") or "") != ccls or f["n"] == "serializationTestObject":
+                continue
+            got, bad = parallel.unbalanced(f, cmem[0], cmem[1:], strict=True)
+            if not got:
+                continue
+            n_here += 1
+            key = "%s@%d" % (f["q"], f["l"])
+            chk.instance(r_co, key, sample=dict(function=f["q"], columns=cmem, operations=sorted({(g[4], g[5]) for g in got})))
+            for line, base, gops, wrong in bad:
+                # the first column is the reference; a difference may also be the reference falling behind
+                allc = dict(wrong)
+                if all((f["n"], m_) in cexc for m_ in allc) and not gops:
+                    continue
+                chk.violation(r_co, key, "%s: in the statement list at line %s column `%s` changes by %s but %s: the columns of one table no longer have the same number of rows" % (
+                    f["q"], line, cmem[0], [list(o) for o in gops] or "nothing", "; ".join("`%s` by %s" % (m_, [list(o) for o in o_] or "nothing") for m_, o_ in sorted(allc.items()))), f["file"], line)
+        if n_here < 1:
+            raise core.AnalysisBroken("%s: no member function changes the length of %s" % (ccls, "/".join(cmem)))
+
     r_cu = chk.rule("C20.cursor", "token cursors (an index compared with V.size(), used in V[idx] and advanced by the code): every V[idx] is preceded on every path by a test that establishes idx < V.size() since the last advance; where the end is tested with equality the cursor is never advanced from a state that may already be the end", floor=40)
     n_cursors = 0
     for f in fx.fns:
